@@ -266,33 +266,40 @@ def pyv_term(v):
 
 
 def flat_value(v):
-    """summand / sum value -> list of Fractions (re, im of every entry); int 0 -> [0, 0]"""
+    """summand / sum value -> list of Fractions: the real parts of all entries, then the imaginary parts"""
     import numpy as np
+
+    def parts(x):
+        if isinstance(x, (bool, np.bool_)):
+            raise Unencodable('bool value')
+        if isinstance(x, (int, np.integer)):
+            return Fraction(int(x)), Fraction(0)
+        if isinstance(x, (float, np.floating)):
+            x = complex(float(x), 0.0)
+        if isinstance(x, (complex, np.complexfloating)):
+            x = complex(x)
+            for p_ in (x.real, x.imag):
+                if p_ != p_ or p_ in (float('inf'), -float('inf')):
+                    raise Unencodable('non-finite value')
+            return Fraction(x.real), Fraction(x.imag)
+        raise Unencodable('value %r' % (type(x),))
     if isinstance(v, np.ndarray):
-        out = []
-        for x in np.asarray(v).reshape(-1):
-            out += flat_value(x.item() if hasattr(x, 'item') else x)
-        return out
-    if isinstance(v, (bool, np.bool_)):
-        raise Unencodable('bool value')
-    if isinstance(v, (int, np.integer)):
-        return [Fraction(int(v)), Fraction(0)]
-    if isinstance(v, (float, np.floating)):
-        v = float(v)
-        if v != v or v in (float('inf'), -float('inf')):
-            raise Unencodable('non-finite value')
-        return [Fraction(v), Fraction(0)]
-    if isinstance(v, (complex, np.complexfloating)):
-        v = complex(v)
-        for p in (v.real, v.imag):
-            if p != p or p in (float('inf'), -float('inf')):
-                raise Unencodable('non-finite value')
-        return [Fraction(v.real), Fraction(v.imag)]
-    raise Unencodable('value %r' % (type(v),))
+        ps = [parts(x.item() if hasattr(x, 'item') else x) for x in np.asarray(v).reshape(-1)]
+    else:
+        ps = [parts(v)]
+    return [a for a, _ in ps] + [b for _, b in ps]
+
+
+def trimmed(fs):
+    fs = list(fs)
+    while fs and fs[-1] == 0:
+        fs.pop()
+    return fs
 
 
 def qlist(fs):
-    return '[' + ';'.join(q(f) for f in fs) + ']'
+    """trailing zeros are dropped: the model pads with zeros (and [] is the integer 0 that sum() starts from)"""
+    return '[' + ';'.join(q(f) for f in trimmed(fs)) + ']'
 
 
 def tol_term(tol):
@@ -326,11 +333,12 @@ HEADER = ('From Coq Require Import ZArith QArith Qabs List Bool.\n'
 
 AGREE_DEFS = r'''
 Inductive lim_entry := L (expr : str) (scope : list str) (i : nat) (out : outcome pyv).
-Inductive term_entry := T (n : Z) (i : nat) (expr var : str) (scope : list str) (out : outcome (list Q)).
+(* summand evaluations of one evaluate_sum call at n = start, start+step, ... (the points range() produced) *)
+Inductive term_entry := T (i : nat) (expr var : str) (scope : list str) (start step : Z) (outs : list (outcome (list Q))).
 Inductive parse_entry := P (expr : str) (out : outcome unit) (fact factorial : bool).
 (* one evaluate_sum call of the implementation: who (true = author), sample, evaluation points in order,
    whether the call returned, and the sum it returned *)
-Inductive esum_obs := E (author : bool) (i : nat) (idx : list Z) (completed : bool) (value : list Q) (scale : Q).
+Inductive esum_obs := E (author : bool) (i : nat) (start step : Z) (count : nat) (completed : bool) (value : list Q) (scale : Q).
 
 Record ccase := mkCase {
   k_cfg : config; k_tol : tolerance; k_inputs : list str;
@@ -363,12 +371,21 @@ Fixpoint o_lim_go (t : list lim_entry) (s : str) (sc : list str) (i : nat) : out
 Fixpoint o_term_go (t : list term_entry) (s : str) (sc : list str) (v : str) (n : Z) (i : nat) : outcome (list Q) :=
   match t with
   | [] => Raise EUnrecorded
-  | T n' i' e v' sc' o :: r =>
-      if Z.eqb n n' then
-        (if Nat.eqb i i' then
-           (if str_eqb e s then
-              (if str_eqb v v' then (if same_names sc sc' then o else o_term_go r s sc v n i) else o_term_go r s sc v n i)
-            else o_term_go r s sc v n i)
+  | T i' e v' sc' start step outs :: r =>
+      if Nat.eqb i i' then
+        (if (start <=? n)%Z then
+          (if ((n - start) mod step =? 0)%Z then
+            (if str_eqb e s then
+              (if str_eqb v v' then
+                (if same_names sc sc' then
+                   match nth_error outs (Z.to_nat ((n - start) / step)) with
+                   | Some o => o
+                   | None => o_term_go r s sc v n i
+                   end
+                 else o_term_go r s sc v n i)
+               else o_term_go r s sc v n i)
+             else o_term_go r s sc v n i)
+           else o_term_go r s sc v n i)
          else o_term_go r s sc v n i)
       else o_term_go r s sc v n i
   end.
@@ -445,7 +462,8 @@ Definition gen_plan_ok (c : ccase) (author : bool) (fields : list str) (i : nat)
 
 Definition esum_ok (c : ccase) (fields : list str) (o : esum_obs) : nat :=
   match o with
-  | E author i idx completed value scale =>
+  | E author i start step count completed value scale =>
+      let idx := map (fun j => (start + step * Z.of_nat j)%Z) (seq 0 count) in
       let f := if author then c_answers (k_cfg c) else fields in
       if negb (gen_plan_ok c author f i) then 5%nat else
       match m_plan c author f i with
@@ -506,6 +524,10 @@ Definition case_ok (c : ccase) : bool := Nat.eqb (case_code c) 0.
 # one recorded run -> Coq case term
 # ================================================================================================
 class Names(object):
+    """Strings are interned: the model only compares strings, tests `== ''` and `.strip() == ''`, and looks them up in
+    the oracle tables, so every non-blank string is sent as a one-element list [100000 + id] (injective, not a
+    whitespace code point), the empty string as [] and whitespace-only strings as their code points."""
+
     def __init__(self):
         self.strs, self.scopes = {}, {}
 
@@ -524,11 +546,29 @@ class Names(object):
 
     def lets(self):
         out = []
-        for text, name in self.strs.items():
-            out.append('let %s : str := %s in' % (name, strl(text)))
+        for j, (text, name) in enumerate(self.strs.items()):
+            if text == '':
+                lit = '(@nil Z)'
+            elif text.strip() == '' or text in default_reserved():
+                lit = strl(text)      # names of the header's default_reserved list keep their code points
+            else:
+                lit = '[%d]%%Z' % (100000 + j)
+            out.append('let %s : str := %s in' % (name, lit))
         for keys, name in self.scopes.items():
             out.append('let %s : list str := [%s] in' % (name, ';'.join(self.strs[x] for x in keys)))
         return '\n   '.join(out)
+
+
+def progression(ns):
+    """[n0, n0+d, n0+2d, ...] -> (n0, d, len) or None"""
+    if not ns:
+        return (0, 1, 0)
+    if len(ns) == 1:
+        return (ns[0], 1, 1)
+    d = ns[1] - ns[0]
+    if d < 1 or any(b - a != d for a, b in zip(ns, ns[1:])):
+        return None
+    return (ns[0], d, len(ns))
 
 
 def vec_add(a, b):
@@ -602,7 +642,7 @@ def case_term(run):
         sums = {}
         for e in rec.esums:
             i, author = e['k'] // 2, e['k'] % 2 == 0
-            idx, acc, scale = [], [], Fraction(1)
+            idx, acc, scale, outs, tscope, texpr = [], [], Fraction(1), [], None, None
             for ev_ in e['evals']:
                 kind, val = ev_['out']
                 if ev_['allow_inf']:
@@ -613,12 +653,18 @@ def case_term(run):
                         if t in ('EMitxOther', '(ESummation MUnknown)'):
                             raise Unencodable('limit error class')
                         ot = '(Raise %s)' % t
-                    lims.append('L %s %s %d %s' % (nm.s(ev_['expr']), nm.sc(ev_['scope']), i, ot))
+                    ent = 'L %s %s %d %s' % (nm.s(ev_['expr']), nm.sc(ev_['scope']), i, ot)
+                    if ent not in lims:
+                        lims.append(ent)
                 else:
                     n = ev_.get('n')
                     if not isinstance(n, int) or isinstance(n, bool):
                         raise Unencodable('summation variable bound to %r' % (n,))
-                    sc = [x for x in ev_['scope'] if x != e['var']]
+                    sc = tuple(x for x in ev_['scope'] if x != e['var'])
+                    if tscope is None:
+                        tscope, texpr = sc, ev_['expr']
+                    elif (tscope, texpr) != (sc, ev_['expr']):
+                        raise Unencodable('summand evaluations of one call differ in scope or text')
                     if kind == 'ret':
                         fl = flat_value(val)
                         acc = vec_add(acc, fl)
@@ -630,13 +676,20 @@ def case_term(run):
                             raise Unencodable('term error class')
                         ot = '(Raise %s)' % t
                     idx.append(n)
-                    terms.append('T %s %d %s %s %s %s' % (zl(n), i, nm.s(ev_['expr']), nm.s(e['var']), nm.sc(sc), ot))
+                    outs.append(ot)
+            pr = progression(idx)
+            if pr is None:
+                raise Unencodable('evaluation points are not an increasing arithmetic progression: %r' % (idx[:8],))
+            if idx:
+                ent = 'T %d %s %s %s %s %s [%s]' % (i, nm.s(texpr), nm.s(e['var']), nm.sc(tscope), zl(pr[0]), zl(pr[1]), '; '.join(outs))
+                if ent not in terms:
+                    terms.append(ent)
             completed = e['result'][0] == 'ret'
             value = flat_value(e['result'][1]) if completed else []
             if completed:
                 sums[(i, author)] = (acc, value, scale)
-            esums.append('E %s %d [%s]%%Z %s %s %s' % (core.boollit(author), i, ';'.join(zl(n) for n in idx),
-                                                    core.boollit(completed), qlist(value), q(Fraction(float(scale)))))
+            esums.append('E %s %d %s %s %d %s %s %s' % (core.boollit(author), i, zl(pr[0]), zl(pr[1]), pr[2],
+                                                       core.boollit(completed), qlist(value), q(Fraction(float(scale)))))
         # guard band for the verdict
         skip = False
         shapes_ok = True
@@ -649,8 +702,8 @@ def case_term(run):
                 shapes_ok = False      # number against array (an empty sum is the integer 0): the comparer's shape errors are not modelled
                 continue
             n_ = max(len(a), len(s_))
-            a2 = list(a) + [Fraction(0)] * (n_ - len(a))
-            s2 = list(s_) + [Fraction(0)] * (n_ - len(s_))
+            a2 = list(a) if a else [Fraction(0)] * n_
+            s2 = list(s_) if s_ else [Fraction(0)] * n_
             d2 = sum((x - y) ** 2 for x, y in zip(a2, s2))
             na2 = sum(x * x for x in a2)
             T2 = (Fraction(tol[:-1]) / 100) ** 2 * na2 if isinstance(tol, str) else Fraction(tol) ** 2
@@ -816,7 +869,7 @@ def make_pool(rng, size):
     """summand pool: (exact, variables, cfg fragment, tree); reused across the grid so that the parser cache is hit"""
     pool = []
     for _ in range(size):
-        exact = rng.random() < 0.55
+        exact = rng.random() < 0.75
         variables, cfg = pick_env(rng, exact)
         kind = rng.choice(['real', 'real', 'complex', 'vector'])
         pool.append((exact, variables, cfg, sx.gen_summand(rng, kind, variables, exact)))
@@ -824,7 +877,7 @@ def make_pool(rng, size):
 
 
 def value_case(rng, key, a, b, eo, tier, infinite=None, pool=None):
-    exact = rng.random() < 0.55 and infinite is None
+    exact = rng.random() < 0.75 and infinite is None
     variables, cfg = pick_env(rng, exact)
     kind = rng.choice(['real', 'real', 'complex', 'vector'])
     pooled = None
@@ -1321,6 +1374,12 @@ def run(ctx):
     specs = generate(ctx)
     outs = run_all(specs)
     terms, metas = [], []
+    # volume of the Coq replay: everything on the thorough tier, when an obligation is broken, or when the fingerprint of
+    # some (not every: then no baseline has been recorded yet) mirrored function changed; otherwise every non-grid case
+    # and a third of the grid (the implementation-level oracle always runs the whole grid)
+    changed = ctx.get('fingerprints_changed', [])
+    full = ctx['tier'] == 'thorough' or bool(ctx.get('broken')) or (0 < len(changed) < len(MIRRORED))
+    res.notes.append('Coq replay volume: %s' % ('full' if full else 'all non-grid cases + 1/3 of the grid'))
     dist = {'value': 0, 'student-error': 0, 'author-error': 0, 'positions': 0, 'unencodable': 0, 'oracle_boundary': 0,
             'ref_errors': 0, 'verdict_true': 0, 'verdict_false': 0, 'raised': 0, 'terms_evaluated': 0}
     labels, errkinds = {}, {}
@@ -1345,6 +1404,8 @@ def run(ctx):
             labels[lab] = labels.get(lab, 0) + 1
         if o['term'] is None:
             dist['unencodable'] += 1
+            continue
+        if not full and spec['key'].startswith('grid') and case_seed(spec['key']) % 3 != ctx['seed'] % 3:
             continue
         if o['corr_boundary']:
             res.boundary += 1
